@@ -16,17 +16,29 @@ structures (nested, sequenced, else-if chains, bodies that exit); F4 bit
 fields: every comparison operator of a 1..4(5)-bit field at several bit
 positions against every constant 0..2^bits and True/False, on every field value
 with the other bits of the byte all 0 and all 1, alone (with, with/Else,
-inverted) and as an operand of ~ & | trees.
+inverted) and as an operand of ~ & | trees; F5 variables declared with a
+byte-order prefix (">H" ">I" ">h" "!i" "<H" "<I" ">q" "<q" ">B"; LocalVar,
+PacketVar and ArrayMap variable) as left and right operand of the six
+comparisons and of bit tests, against constants (small, >= 256 palindromic
+and not, too big for the variable, negative), registers, other prefixed and
+native variables, on values whose order changes when their bytes are
+reversed - alone, in trees, nested blocks and else-if chains.  The bytes of
+such a variable are planted as the format defines them for the number; the
+reference compares the numbers.
 """
 import contextlib
 import itertools
 import operator
 import os
+import struct
 import traceback
 from fractions import Fraction
 
 from mc import bpfvm, core, dsl, kern
+import ebpfcat.arraymap
+from ebpfcat.arraymap import ArrayMap
 from ebpfcat.ebpf import LocalVar
+from ebpfcat.xdp import PacketVar
 from harness.c01_intexpr import values_for, sx
 
 PROP = "C03"
@@ -42,7 +54,16 @@ RULE = ("programs = block structure (with / with+Else / nested / sequenced / "
         "False (field left and right) on every field value x the other bits "
         "of the byte all 0 / all 1, in with, with/Else, ~ and as either "
         "operand of two-atom & | trees, judged by the exact integer "
-        "comparison of the field value; a case "
+        "comparison of the field value; variables with a byte-order prefix "
+        "(big/network/little endian, 1..8 bytes, signed and unsigned; local, "
+        "packet and array-map memory) are left and right operand of all six "
+        "comparisons and of bit tests against constants (small, >= 256, "
+        "byte-palindromic, too big, negative), registers and other prefixed "
+        "/ native variables, on boundary pairs, on the constant's "
+        "neighbours among the byte-reversed numbers and on an alphabet of "
+        "numbers whose order changes under byte reversal (every ordering "
+        "atom must have a vector that tells the two orders apart), judged "
+        "by the comparison of the numbers the formats define; a case "
         "(program, vector) is non-trivial when the generator accepted the "
         "program and every compared value fits the narrowest width involved; "
         "distinct = distinct (program, vector)")
@@ -68,7 +89,15 @@ FLAG_SLOT0 = 3        # output slots: 0 log, 1 fv, 2 r5, 3.. flag bytes
 
 
 # ------------------------------------------------------------------ operands
-# ("reg", kind, n) ("loc", fmt, n) ("bf", pos, bits, n) ("const", value)
+# ("reg", kind, n) ("loc", fmt, n) ("pkt", fmt, n) ("arr", fmt, n)
+# ("bf", pos, bits, n) ("const", value)
+#   loc = LocalVar, pkt = PacketVar, arr = ArrayMap.globalVar; their format
+#   may carry a byte-order prefix (">H", "!i", "<q" ...): env[o] is always
+#   the NUMBER the format defines for the variable's bytes
+MEMKINDS = ("loc", "pkt", "arr")
+PV_SLOTS = dsl.PV_AREA // 8
+
+
 def is_var(o):
     return o[0] != "const"
 
@@ -77,11 +106,33 @@ def otype(o):
     """(size, signed, fixed) of a variable operand"""
     if o[0] == "reg":
         return REGKIND[o[1]]
-    if o[0] == "loc":
-        return FMT[o[1]]
+    if o[0] in MEMKINDS:
+        return FMT[o[1][-1]]
     if o[0] == "bf":
         return (1, False, False)
     raise core.Internal(f"no type for {o!r}")
+
+
+def prefixed(o):
+    """a memory variable declared with a byte-order prefix"""
+    return o[0] in MEMKINDS and len(o[1]) > 1
+
+
+def planted(o, v):
+    """the integer a little-endian store of the variable's size has to write
+    so that the variable's bytes are those its format defines for value v"""
+    if not prefixed(o):
+        return v
+    return int.from_bytes(struct.pack(o[1], v), "little")
+
+
+def native_reading(o, v):
+    """what the bytes of variable o (holding the number v) mean when they are
+    read in the machine's byte order, i.e. without the swap the prefix asks
+    for (used only to measure that the chosen values tell the two apart)"""
+    if not prefixed(o):
+        return v
+    return struct.unpack("<" + o[1][-1], struct.pack(o[1], v))[0]
 
 
 def cval(c):
@@ -277,6 +328,39 @@ def fresh_state():
     return [0, 0, 0, set(), RET_END]
 
 
+class FakeMaps:
+    """array maps created by ebpfcat land in an interpreter Kernel (C05 puts
+    its own class with real kernel maps here)"""
+
+    def __init__(self):
+        self.kernel = bpfvm.Kernel()
+        self.created = []
+
+    def restart(self):
+        pass
+
+    def create_map(self, map_type, key_size, value_size, max_entries,
+                   attributes=None):
+        fd = 100 + len(self.created)
+        self.kernel.maps[fd] = bpfvm.BpfMap(
+            map_type.value, key_size, value_size, max_entries)
+        self.created.append(fd)
+        return fd
+
+    def mmap(self, fd, size):
+        return self.kernel.maps[fd].area
+
+    @contextlib.contextmanager
+    def bound(self):
+        am = ebpfcat.arraymap
+        old = am.create_map, am.mmap
+        am.create_map, am.mmap = self.create_map, self.mmap
+        try:
+            yield self
+        finally:
+            am.create_map, am.mmap = old
+
+
 class ExitCode:
     """stands in for an XDPExitCode member"""
     def __init__(self, value):
@@ -305,22 +389,45 @@ class Prog:
         self.use_r5 = any(m[0] == "m" and m[2] >= 5 for m in marks)
         attrs = {"fv": LocalVar("I")}
         self.names = {}
+        self.pktoff = {}
+        self.uses_map = any(o[0] == "arr" for o in ops)
+        if self.uses_map:
+            amap = attrs["amap"] = ArrayMap()
         for i, o in enumerate(ops):
             if o[0] == "loc":
                 self.names[o] = f"v{i}"
                 attrs[f"v{i}"] = LocalVar(o[1])
+            elif o[0] == "pkt":
+                if len(self.pktoff) >= PV_SLOTS:
+                    raise core.Internal("packet variable slots exhausted")
+                self.names[o] = f"v{i}"
+                self.pktoff[o] = 8 * len(self.pktoff)
+                attrs[f"v{i}"] = PacketVar(self.pktoff[o], o[1])
+            elif o[0] == "arr":
+                self.names[o] = f"v{i}"
+                attrs[f"v{i}"] = amap.globalVar(o[1])
             elif o[0] == "bf":
                 self.names[o] = f"v{i}"
                 attrs[f"v{i}"] = LocalVar((o[1], o[2]))
         n_out = FLAG_SLOT0 + (self.maxid + 8) // 8
-        b = self.b = dsl.Builder(attrs, n_in=max(1, len(ops)), n_out=n_out)
+        self.fake = None
+        if self.uses_map:
+            # the map is looked up (r7 = address of its value) by the code
+            # the generator emits in front of the harness' preamble
+            self.fake = FakeMaps()
+            with self.fake.bound():
+                b = self.b = dsl.Builder(attrs, n_in=max(1, len(ops)),
+                                         n_out=n_out)
+        else:
+            b = self.b = dsl.Builder(attrs, n_in=max(1, len(ops)),
+                                     n_out=n_out)
         e = b.e
         e.owners.discard(1)            # ctx is not needed any more
         b.raw(0xb7, 6, 0, 0, 0)        # r6 = 0, the log
         e.owners.add(6)
         fv = b.cls.__dict__["fv"].relative_addr
         b.raw(0x62, 10, 0, fv, 0)      # fv = 0
-        pool = [2, 3, 4, 7, 8]
+        pool = [2, 3, 4, 8] if self.uses_map else [2, 3, 4, 7, 8]
         if self.use_r5:
             b.raw(0xb7, 5, 0, 0, 0)
             e.owners.add(5)
@@ -330,6 +437,11 @@ class Prog:
         for i, o in enumerate(ops):     # memory first: planting uses r0
             if o[0] in ("loc", "bf"):
                 b.plant_local(self.names[o], i)
+            elif o[0] == "pkt":
+                b.plant_mem(9, self.pktoff[o], otype(o)[0], i)
+            elif o[0] == "arr":
+                b.plant_mem(ArrayMap.base_register,
+                            e.__dict__[self.names[o]], otype(o)[0], i)
         for i, o in enumerate(ops):
             if o[0] == "reg":
                 if not pool:
@@ -437,7 +549,7 @@ class Prog:
             v = env[o]
             if o[0] == "reg" and REGKIND[o[1]][0] == 4:
                 v &= 0xffffffff        # the state a 32-bit write leaves
-            out.append(v & M64)
+            out.append(planted(o, v) & M64)
         return out
 
     def observe(self, outs, pkt, ret=RET_END):
@@ -591,7 +703,8 @@ def execute(p, env):
     if p.malformed:
         return None, "malformed program: " + p.malformed, 0
     try:
-        ret, outs, pkt, vm = p.b.run_vm(p.inputs(env))
+        ret, outs, pkt, vm = p.b.run_vm(
+            p.inputs(env), kernel=p.fake.kernel if p.fake else None)
         return p.observe(outs, pkt, ret), None, vm.steps
     except bpfvm.Trap as t:
         return None, str(t), 0
@@ -609,7 +722,8 @@ def run_prog(stmts, envs, res, kernel=False, family=""):
     # a body that leaves the program makes the generator emit an
     # unreachable jump which the verifier refuses (C05's finding): such
     # programs are judged in the interpreter only
-    if kernel and kern.available() and not p.has_exit and not p.malformed:
+    if kernel and kern.available() and not p.has_exit and not p.malformed \
+            and not p.uses_map:
         try:
             kfd = p.b.load_kernel()
         except kern.LoadError:
@@ -726,7 +840,62 @@ def dom(o, seed, small):
               (1 << 31) * FB, (1 << 63) - 1, -(1 << 63),
               rnd.randrange(-10 ** 9, 10 ** 9)]
         return vs[:9] + vs[-2:] if small else vs
+    if prefixed(o):
+        return uniq(bswap_values(size, signed)
+                    + values_for(size, signed, seed, small))
     return values_for(size, signed, seed, small)
+
+
+def bswap_values(size, signed):
+    """numbers of that width whose order (among each other and relative to
+    small numbers) changes when their bytes are reversed"""
+    if size == 1:
+        return []
+    bits = 8 * size
+    seq = bytes(range(1, size + 1))
+    vs = [int.from_bytes(seq, "big"), int.from_bytes(seq, "little"),
+          0xff, 0xff << (bits - 8), 0x100, 1 << (bits - 8),
+          int("01" * size, 16), 0x0150, 0x7f << (bits - 8)]
+    return uniq([sx(v, bits) if signed else v for v in vs])
+
+
+def swapped_number(fmt, v):
+    """the number whose bytes (in format fmt) are those of v reversed, or
+    None if v does not fit"""
+    try:
+        return struct.unpack("<" + fmt[-1], struct.pack(fmt, v))[0]
+    except struct.error:
+        return None
+
+
+def native_truth(a, env):
+    """the comparison as it comes out when the bytes of prefixed variables
+    are read in machine order and a constant partner is byte-swapped to
+    match (the 'saved swap' that is right for == and !=, wrong for the
+    ordering operators)"""
+    L, R = a[2], a[3]
+    vals = []
+    for o, other in ((L, R), (R, L)):
+        if is_var(o):
+            vals.append(native_reading(o, env[o]) if not otype(o)[2]
+                        else env[o])
+        elif is_var(other) and prefixed(other) and isinstance(o[1], int) \
+                and swapped_number(other[1], o[1]) is not None:
+            vals.append(swapped_number(other[1], o[1]))
+        else:
+            vals.append(cval(o[1]))
+    return CMP[a[1]](vals[0], vals[1])
+
+
+def order_sensitive(a, env):
+    """does the operand vector tell the numeric order from the order of the
+    byte-reversed numbers?"""
+    if a[0] != "cmp" or a[1] in ("==", "!="):
+        return False
+    try:
+        return atom_eval(a, env) != native_truth(a, env)
+    except Outside:
+        return False
 
 
 def raw_for(o, v, d):
@@ -766,6 +935,9 @@ def cands(a, seed, small):
                 x = raw_for(L, oval(R, {R: y}), d)
                 if x is not None:
                     out.append({L: x, R: y})
+        if prefixed(L) or prefixed(R):
+            k = 6 if small else 9
+            dl, dr = dl[:k], dr[:k]
         out += [{L: x, R: y} for x in dl for y in dr]
     elif a[0] == "cmp":
         (V,) = ops
@@ -776,6 +948,19 @@ def cands(a, seed, small):
                 x = raw_for(V, c, d)
                 if x is not None:
                     out.append({V: x})
+            if prefixed(V) and isinstance(c, int):
+                # the neighbours of the constant among the byte-reversed
+                # numbers, and one step in the most significant byte
+                lo, hi = rng(V)
+                top = 1 << (8 * otype(V)[0] - 8)
+                sc = swapped_number(V[1], c)
+                near = [c + top, c - top]
+                if sc is not None:
+                    near += [sc, sc + 1, sc - 1]
+                    near += [swapped_number(V[1], y) for y in (sc + 1, sc - 1)
+                             if lo <= y <= hi]
+                out += [{V: x} for x in near if x is not None
+                        and lo <= x <= hi]
         out += [{V: x} for x in dom(V, seed, small)]
     elif a[0] == "jset" and len(ops) == 2:
         L, M = a[1], a[2]
@@ -800,6 +985,10 @@ def cands(a, seed, small):
     for env in out:
         if env not in res:
             res.append(env)
+    if a[0] == "cmp" and any(prefixed(o) for o in ops):
+        # vectors that tell the numeric order from the byte-reversed one
+        # first: trees and blocks take their values from the head of the list
+        res.sort(key=lambda env: not order_sensitive(a, env))
     return res
 
 
@@ -1016,6 +1205,19 @@ def rep_atom(cls, n):
         return ("nz", ("loc", "h", n))
     if cls == "Nr":
         return ("nz", ("reg", "sw", n))
+    # variables declared with a byte-order prefix
+    if cls == "Pg":     # big-endian local against a constant >= 256
+        return ("cmp", ">", ("loc", ">H", n), ("const", 0x0150))
+    if cls == "Pi":     # signed network-order packet variable
+        return ("cmp", "<=", ("pkt", "!i", n), ("const", -70000))
+    if cls == "Pr":     # register against a big-endian array-map variable
+        return ("cmp", "<", ("reg", "w", n), ("arr", ">I", 100 + n))
+    if cls == "Pc":     # constant on the left (reaches the generator mirrored)
+        return ("cmp", ">=", ("const", 0x0102), ("pkt", ">h", n))
+    if cls == "Pj":     # bit test of a big-endian variable
+        return ("jset", ("loc", ">H", n), ("const", 0x0100), "ne0")
+    if cls == "Pq":
+        return ("cmp", "<", ("arr", ">q", n), ("loc", "<q", 100 + n))
     raise core.Internal(cls)
 
 
@@ -1188,6 +1390,10 @@ PATTERNS = {
                ("sh", "w", "sr", "=="), ("sh", "w", "I", ">")],
 }
 SHARED_PATTERNS = ("sh_sw", "sh_sw2", "sh_sr", "sh_w")
+# conditions on byte-order-prefixed variables (locals, packet, array map)
+ENDIAN_PATTERN = ["Pg", "Pi", "Pj", "Pr", "Pc", ("and", "Pg", "Pi"), "Pq",
+                  ("or", "Pj", ("not", "Pc"))]
+PATTERNS["endian"] = ENDIAN_PATTERN
 
 
 def instantiate(top, pattern, rot):
@@ -1351,9 +1557,160 @@ def bf_items(ctx):
     return items
 
 
+# ---- family F5: variables declared with a byte-order prefix
+END_FMTS = [">H", ">I", ">h", "!i", "<H", "<I", ">q", "<q", ">B"]
+END_KINDS = ["loc", "pkt", "arr"]
+ORDERING = (">", ">=", "<", "<=")
+
+
+def endian_consts(fmt, quick):
+    """small, >= 256 (byte-palindromic and not), too big for the variable,
+    negative for the signed formats"""
+    size, signed, _ = FMT[fmt[-1]]
+    cs = {1: [3, 200, 0x150],
+          2: [3, 0x0150, 0x0101, 0x1234, 0x10150],
+          4: [7, 0x00010000, 0x01020304, 0x01000001, 0x0150],
+          8: [5, 0x0102030405060708, 1 << 40, 0x0100000000000001,
+              0x0150]}[size]
+    if signed:
+        cs += {1: [-2], 2: [-2, -300], 4: [-1, -70000],
+               8: [-3, -(1 << 40) - 5]}[size]
+    if quick and size == 8:
+        cs = cs[:3] + cs[4:]
+    return cs
+
+
+def endian_partners(P, quick):
+    """registers and other variables a prefixed variable is compared with"""
+    fmt, kind = P[1], P[0]
+    size, signed, _ = FMT[fmt[-1]]
+    regs = [("reg", k, 1) for k in
+            ((("sw", "sr") if size <= 4 else ("sr", "sw")) if signed else
+             (("w", "r") if size <= 4 else ("r", "w")))]
+    other_kind = END_KINDS[(END_KINDS.index(kind) + 1) % 3]
+    other_fmt = {1: ">H", 2: ">I", 4: ">H", 8: "!i"}[size]
+    if signed:
+        other_fmt = other_fmt.lower()
+    vs = [(other_kind, fmt, 1),                   # same format, elsewhere
+          (END_KINDS[(END_KINDS.index(kind) + 2) % 3], other_fmt, 1),
+          ("loc", fmt[-1], 1),                    # the same type, native
+          ("loc", "q" if signed else "Q", 1)]
+    if not quick:
+        regs.append(("reg", "x", 1))
+        vs.append(("loc", "<" + other_fmt[-1], 1))
+    return regs, vs
+
+
+def endian_atoms(P, quick):
+    fmt = P[1]
+    size, signed, _ = FMT[fmt[-1]]
+    bits = 8 * size
+    regs, vs = endian_partners(P, quick)
+    atoms = []
+    for op in CMP:
+        for c in endian_consts(fmt, quick):
+            atoms.append(("cmp", op, P, ("const", c)))
+            atoms.append(("cmp", op, ("const", c), P))
+        for o in regs + vs:
+            atoms.append(("cmp", op, P, o))
+            atoms.append(("cmp", op, o, P))
+    masks = uniq([1, 0x80, 1 << (bits - 8), 0x0180 if size > 1 else 6,
+                  -8 if signed else (1 << bits) - 2])
+    for m in masks:
+        for form in ("with", "ne0", "eq0"):
+            atoms.append(("jset", P, ("const", m), form))
+    for form in ("with", "ne0", "eq0"):
+        atoms.append(("jset", P, regs[0], form))
+        atoms.append(("jset", regs[0], P, form))
+        atoms.append(("jset", P, vs[0], form))
+    atoms.append(("jset", ("const", 0x0102 if size > 1 else 5), P, "ne0"))
+    atoms.append(("nz", P))
+    return atoms
+
+
+def work_endian(item, res):
+    """family F5: one atom with a byte-order-prefixed variable on all its
+    operand vectors (boundary pairs, the neighbours among the byte-reversed
+    numbers, the alphabets), in with / with+Else / inverted settings"""
+    a, idx, seed, quick, kernel = item
+    envs = cands(a, seed, quick)
+    if quick:
+        envs = envs[:28]
+    ops = [o for o in atom_operands(a) if is_var(o)]
+    if a[0] == "cmp" and a[1] in ORDERING and any(
+            prefixed(o) and o[1][0] != "<" and otype(o)[0] > 1 for o in ops):
+        n = sum(1 for env in envs if order_sensitive(a, env))
+        res.count("endian_order_sensitive_vectors", n)
+        consts = [o for o in atom_operands(a) if not is_var(o)]
+        # (a constant too big for the variable is above or below all of
+        # its values whichever way they are read)
+        if not n and not (consts and swapped_number(
+                ops[0][1], consts[0][1]) is None):
+            raise core.Internal(
+                f"no operand vector of {a!r} tells the numeric order from "
+                "the order of the byte-reversed numbers")
+    if bare(a):
+        progs = list(with_forms(a, [(3, 3), (0, 1)] if quick else
+                                [(3, None), (3, 3), (0, 1), (5, 0)]))
+    elif quick:
+        progs = list(with_forms(a, [(3, 3)]))
+        progs += list(with_forms(a, [(3, None)])) if idx % 2 else \
+            list(with_forms(("not", a), [(1, 3)]))
+    else:
+        progs = list(with_forms(a, [(3, None), (3, 3), (1, 0)]))
+        progs += list(with_forms(("not", a), [(1, 3)]))
+    for k, stmts in enumerate(progs):
+        run_prog(stmts, envs, res, kernel and k == 0, "endian")
+
+
+def endian_items(ctx):
+    items = []
+    idx = 0
+    ke = 11 if ctx.quick else 7
+    for fi, fmt in enumerate(END_FMTS):
+        kinds = END_KINDS
+        if ctx.quick:       # one memory kind per format, rotating
+            kinds = [END_KINDS[(fi + ctx.seed) % 3]]
+        for kind in kinds:
+            for a in endian_atoms((kind, fmt, 0), ctx.quick):
+                idx += 1
+                items.append(("endian", a, idx, ctx.seed, ctx.quick,
+                              idx % ke == 0))
+    # prefixed variables in trees ...
+    pairs = [("Pg", "S"), ("J", "Pi"), ("Pg", "Pi"), ("Pr", "Pj"),
+             ("Pc", "Pg"), ("Pq", "Pc")]
+    lens2 = [(3, None), (3, 3), (1, 0), (0, 1)]
+    n = 0
+    for shape in tree_shapes(2):
+        for cl in pairs:
+            n += 1
+            if ctx.quick and (n + ctx.seed) % 2:
+                continue
+            items.append(("tree", shape, cl, lens2, ctx.seed, n % ke == 0))
+    for si, shape in enumerate(tree_shapes(3)):
+        if ctx.quick and (si + ctx.seed) % 8:
+            continue
+        for cl in (("Pg", "Pi", "Pj"), ("Pc", "J", "Pr")):
+            n += 1
+            items.append(("tree", shape, cl, [(3, None), (3, 1)], ctx.seed,
+                          n % ke == 0))
+    # ... and in nested / sequenced blocks, else-if chains, exiting bodies
+    tops = [[blk] for blk in structures(1, ctx.quick)]
+    tops += [[blk] for blk in structures(2, ctx.quick)]
+    tops += exit_structures(ctx.quick)
+    for ti, top in enumerate(tops):
+        if (ti + ctx.seed) % (6 if ctx.quick else 2):
+            continue
+        n += 1
+        items.append(("block", top, "endian", ti % 8, ctx.seed,
+                      n % ke == 0))
+    return items
+
+
 def work(item, res):
     {"atom": work_atom, "tree": work_tree, "block": work_block,
-     "shtree": work_shtree, "bf": work_bf}[item[0]](item[1:], res)
+     "shtree": work_shtree, "bf": work_bf,
+     "endian": work_endian}[item[0]](item[1:], res)
 
 
 def items_for(ctx):
@@ -1404,7 +1761,7 @@ def items_for(ctx):
         tops.append([x, y])
         if not ctx.quick:
             tops.append([x, ("m", 3), y])
-    pats = list(PATTERNS)
+    pats = [p for p in PATTERNS if p != "endian"]
     for ti, top in enumerate(tops):
         deep = depth_of(top[0])
         for pi, pname in enumerate(pats):
@@ -1460,6 +1817,8 @@ def items_for(ctx):
                           n % ke == 0))
     # bit fields against every small constant on every field value
     items += bf_items(ctx)
+    # variables declared with a byte-order prefix
+    items += endian_items(ctx)
     return items
 
 
@@ -1473,7 +1832,7 @@ def run(ctx):
     res.cov["kernel_available"] = kern.available()
     res.cov["families"] = {
         k: sum(1 for i in items if i[0] == k) for k in
-        ("atom", "tree", "shtree", "block", "bf")}
+        ("atom", "tree", "shtree", "block", "bf", "endian")}
     res.sample(dict(stmts=[["if", ["jset", ["loc", "I", 0],
                                    ["const", 0x80000000], "with"],
                             [["m", 1, 3]], [["m", 2, 1]]], ["m", 9, 3]]))
@@ -1501,6 +1860,15 @@ def run(ctx):
         "(four with operands of their own, two comparing the same field)",
         "float constants in conditions are exactly representable (3.5, 2.5, "
         "0.5); inexact decimals belong to C02",
+        "a variable declared with a byte-order prefix holds the number that "
+        "struct.unpack(format, its bytes) gives; conditions on it are judged "
+        "by that number (width rule as for the native format of the same "
+        "letter); its bytes are planted by raw stores.  The prefixed-variable "
+        "family takes formats " + " ".join(END_FMTS) + " in local, packet "
+        "and array-map memory (quick: one of the three memory kinds per "
+        "format, rotating with the seed - trees and blocks use all three -, and at most 28 operand vectors per "
+        "atom, the order-sensitive ones first); programs with an array-map "
+        "variable run in the interpreter only (the map lives there)",
         "a body that ends in exit(code) leaves the program: the oracle then "
         "demands exactly that body's code as return value and the markers "
         "written before it; 'execution continues after the construct' is "
